@@ -14,12 +14,15 @@ def spec(tier):
                  what="every prefix (cut at every column of every line) of 5 valid sample programs (thorough: + test/test_source) indexed through the real server: no failure message, index queryable")
     obs += parts("T.mutate", F, "mutate", 16, T, path_timeout=200,
                  what="every single-token insertion (18 tokens) / single-character deletion at every column of every line of the sample programs")
+    obs += parts("T.growth", F, "growth", 15, T, path_timeout=200,
+                 what="texts whose expansion multiplies: chains of k<=40 object-/function-like macros each using the next one w<=3 times, a file #including itself w times, two headers including each other w times, Fortran INCLUDE of the file itself: indexed within 60 s (under tracer overhead; < 1 s plain) and the outline still lists the program")
     return dict(
         obligations=obs,
         functions=["FortranFile.parse", "preprocess_file", "eval_pp_expr", "get_code_line", "parse_docs/get_docstring", "all read_* in def_tests",
                    "parse_imp_dim/char", "FortranAST.add_*/end_scope/close_file", "FortranFile.check_file", "LangServer.update_workspace_file",
                    "serve_onSave", "serve_document_symbols"],
         bounds="statement documents: <=2 lines quick / <=3 thorough over 100 statement forms x {free, preprocessed, fixed}; directive documents: <=3 lines over 34 forms x 2 definition sets; "
+               "growth documents: k<=40 definitions x fan-out w<=3 x 5 shapes, 60 s wall guard per document (k from a 13-value table in quick, all 40 in thorough); "
                "prefixes/mutations: every (line, column) of 5 sample programs (quick) + repository test sources (thorough); get_line calls <= 48*nLines+32; 30 s wall guard per path",
         assumptions=["in-memory disk", "texts are chosen by solver-forked indices and then indexed concretely (bounded enumeration)"],
         outside=["arbitrary Unicode soup beyond the tables", "documents longer than the bound (the loop's progress argument is checked on these sizes, not proved)"],
